@@ -11,10 +11,13 @@ Proved here:
     by the per-case time limit of the judge;
   * `outcomes_are_explicit` — in the model every Python exception that is not the library's syntax error is a
     distinct `internal` outcome (never defaulted), so the tie compares it with the implementation's exception class.
-The clause "no other exception type escapes" is FALSE of the pinned code (see known_findings.json, `fixed:` entries
-for C12) and is judged on the implementation by harness/checks/C12.py.
+  * the lexer part of "no other exception type escapes": `Props/C12lex.lean` (`lexer_no_internal`,
+    `token_no_internal`, `backtracked_token_no_internal`) — proved after the three crashes of the pinned code
+    were repaired in /repo (known_findings.json, `fixed:` entries for C12); for the LR driver and the semantic
+    actions the `internal` outcomes (missing goto, shape mismatch) are excluded by the S2 correspondence only.
 -/
 import CalmVerif.Props.C06
+import CalmVerif.Props.C12lex
 import CalmVerif.Model.LR
 namespace CalmVerif.Props.C12
 open CalmVerif.Model.Lexer CalmVerif.Model.LR
@@ -27,7 +30,7 @@ theorem token_terminates (st : LexState) : token st ≠ .error Err.outOfFuel :=
   C06.token_terminates st
 
 /-- the driver model is total: every (tables, semantics, source, fuel, configuration) has an outcome -/
-theorem lr_run_total {τ ν σ ε : Type} (T : Tables) (S : Sem τ ν ε) (R : Source τ σ ε) (fuel : Nat)
+theorem lr_run_total {τ ν σ ε : Type} (T : Tables) (S : Sem τ ν σ ε) (R : Source τ σ ε) (fuel : Nat)
     (c : Config τ ν σ) : ∃ o c', run T S R fuel c = (o, c') :=
   ⟨(run T S R fuel c).1, (run T S R fuel c).2, rfl⟩
 
